@@ -147,10 +147,15 @@ pub fn gen_static(rng: &mut Rng, dh: DhK) -> (Vec<u8>, Vec<u8>) {
 /// Static key pair from the library's own key generation, driven through the RNG seam.
 pub fn gen_static_snow(rng: &mut Rng, name: &str, backend: Backend) -> Option<(Vec<u8>, Vec<u8>)> {
     let shared = crate::seam::RngShared::new(rng.next_u64(), RngMode::Stream);
-    let params: snow::params::NoiseParams = name.parse().ok()?;
-    let resolver = crate::seam::SimResolver::new(backend, shared, None, None);
-    let kp = snow::Builder::with_resolver(params, Box::new(resolver)).generate_keypair().ok()?;
-    Some((kp.private, kp.public))
+    let name = name.to_string();
+    // a panic in here is reported by the Keygen op of the run (C10), not as a harness failure
+    let r = std::panic::catch_unwind(move || {
+        let params: snow::params::NoiseParams = name.parse().ok()?;
+        let resolver = crate::seam::SimResolver::new(backend, shared, None, None);
+        let kp = snow::Builder::with_resolver(params, Box::new(resolver)).generate_keypair().ok()?;
+        Some((kp.private, kp.public))
+    });
+    r.ok().flatten()
 }
 
 pub fn gen_prologue(rng: &mut Rng) -> Vec<u8> {
@@ -486,6 +491,10 @@ impl<'a> Driver<'a> {
     /// Run the handshake of session `s` under profile `p`. Returns true if both sides finished.
     pub fn handshake(&mut self, s: usize, p: &Profile) -> bool {
         let (a, b) = (2 * s, 2 * s + 1);
+        if p.query > 0 && self.rng.chance(1, 4) {
+            let n = if self.rng.chance(1, 2) { a } else { b };
+            step!(self, Op::Keygen { node: n as u8 });
+        }
         let mut guard = 0;
         let mut redeliveries = 0;
         loop {
